@@ -13,7 +13,9 @@ package main
 //       on the way out belongs to the request-local class: it is one of the
 //       sentinels IsRequestLocalResolutionError tests, or a package-level error
 //       whose static Unwrap chain (the field its Unwrap method returns, a %w
-//       operand) reaches one.  The class is read from the body of
+//       operand; through a constructor function when the initialiser calls one:
+//       every value it returns, its parameters bound to the call's arguments)
+//       reaches one.  The class is read from the body of
 //       IsRequestLocalResolutionError, the chain from the initialisers; nothing
 //       is executed.
 //   C13-R11  no request-local verdict of an NS-address lookup is dropped on the
@@ -200,12 +202,80 @@ func (k *fC131Class) globalInClass(obj types.Object) bool {
 	return res
 }
 
+// fC131Bind: what a constructor's parameter stands for at one call of it — the
+// argument expression, read in the caller's scope.
+type fC131Bind struct {
+	e    ast.Expr
+	info *types.Info
+	env  map[types.Object]fC131Bind
+}
+
 func (k *fC131Class) astInClass(e ast.Expr, info *types.Info) bool {
+	return k.astInClassEnv(e, info, nil, 0)
+}
+
+// constructorInClass: the initialiser calls a plain function of the module (the
+// literal was moved into a constructor): every value that function can return
+// must be in the class, with its parameters standing for this call's arguments.
+func (k *fC131Class) constructorInClass(call *ast.CallExpr, f *types.Func, info *types.Info, env map[types.Object]fC131Bind, d int) bool {
+	if f == nil || d >= 3 {
+		return false
+	}
+	fd := k.c.P.astFuncs[f.Origin()]
+	if fd == nil || fd.Body == nil || fd.Recv != nil {
+		return false
+	}
+	pk := k.c.P.astPkgOf[fd]
+	sig, _ := f.Type().(*types.Signature)
+	if pk == nil || pk.TypesInfo == nil || sig == nil || sig.Results().Len() != 1 || sig.Variadic() || len(call.Args) != sig.Params().Len() {
+		return false
+	}
+	inner := map[types.Object]fC131Bind{}
+	i := 0
+	if fd.Type.Params != nil {
+		for _, fl := range fd.Type.Params.List {
+			if len(fl.Names) == 0 {
+				i++
+				continue
+			}
+			for _, nm := range fl.Names {
+				if o := pk.TypesInfo.Defs[nm]; o != nil && i < len(call.Args) {
+					inner[o] = fC131Bind{call.Args[i], info, env}
+				}
+				i++
+			}
+		}
+	}
+	n, all := 0, true
+	ast.Inspect(fd.Body, func(nd ast.Node) bool {
+		switch r := nd.(type) {
+		case *ast.FuncLit:
+			return false
+		case *ast.ReturnStmt:
+			n++
+			if len(r.Results) != 1 || !k.astInClassEnv(r.Results[0], pk.TypesInfo, inner, d+1) {
+				all = false
+			}
+		}
+		return true
+	})
+	return n > 0 && all
+}
+
+func (k *fC131Class) astInClassEnv(e ast.Expr, info *types.Info, env map[types.Object]fC131Bind, d int) bool {
 	e = ast.Unparen(e)
+	if d > 8 {
+		return false
+	}
+	if id, ok := e.(*ast.Ident); ok && env != nil {
+		if b, ok := env[info.ObjectOf(id)]; ok {
+			return k.astInClassEnv(b.e, b.info, b.env, d+1)
+		}
+	}
 	switch x := e.(type) {
 	case *ast.UnaryExpr:
 		if x.Op == token.AND {
-			return k.astInClass(x.X, info)
+			return k.astInClassEnv(x.X, info, env, d)
 		}
 	case *ast.CompositeLit:
 		tv, ok := info.Types[x]
@@ -226,7 +296,7 @@ func (k *fC131Class) astInClass(e ast.Expr, info *types.Info) bool {
 				continue
 			}
 			if o, _ := info.ObjectOf(id).(*types.Var); o != nil && o.Origin() == fv.Origin() {
-				return k.astInClass(kv.Value, info)
+				return k.astInClassEnv(kv.Value, info, env, d)
 			}
 		}
 	case *ast.Ident:
@@ -242,11 +312,15 @@ func (k *fC131Class) astInClass(e ast.Expr, info *types.Info) bool {
 		if f, ok := calleeOfAST(x, info); ok && f.Pkg() != nil && f.Pkg().Path() == "fmt" && f.Name() == "Errorf" && len(x.Args) >= 2 {
 			if tv, ok := info.Types[x.Args[0]]; ok && tv.Value != nil && tv.Value.Kind() == constant.String && strings.Contains(constant.StringVal(tv.Value), "%w") {
 				for _, a := range x.Args[1:] {
-					if k.astInClass(a, info) {
+					if k.astInClassEnv(a, info, env, d) {
 						return true
 					}
 				}
 			}
+			return false
+		}
+		if f, ok := calleeOfAST(x, info); ok {
+			return k.constructorInClass(x, f, info, env, d)
 		}
 	}
 	return false
@@ -333,7 +407,7 @@ type fC131Edge struct {
 
 func fC131ShedClass(c *Ctx, rule string) {
 	const rp = "middleware/resolver"
-	c.Doc(rule, "capacity refusals are request-local at the source: after the not-taken edge of a non-blocking send on Resolver.resolutionSlots, after the ok=false edge of zoneInflightLimiter.acquire, and after the false verdict of an unexported helper wrapping either, every error the function mints before returning is a member of the class tested by middleware.IsRequestLocalResolutionError (a sentinel of that predicate, or a package-level error whose Unwrap field / %w operand statically reaches one) — otherwise the SERVFAIL is filed in the RFC 9520 failure cache, followers of the shed singleflight leader inherit the refusal, and a shed NS-address sub-query is reported as an authority failure")
+	c.Doc(rule, "capacity refusals are request-local at the source: after the not-taken edge of a non-blocking send on Resolver.resolutionSlots, after the ok=false edge of zoneInflightLimiter.acquire, and after the false verdict of an unexported helper wrapping either, every error the function mints before returning is a member of the class tested by middleware.IsRequestLocalResolutionError (a sentinel of that predicate, or a package-level error whose Unwrap field / %w operand statically reaches one — written as a literal or returned by the constructor function its initialiser calls, parameters standing for that call's arguments) — otherwise the SERVFAIL is filed in the RFC 9520 failure cache, followers of the shed singleflight leader inherit the refusal, and a shed NS-address sub-query is reported as an authority failure")
 	k := fC131NewClass(c, rule)
 	slots := c.field(rule, rp+".Resolver.resolutionSlots")
 	acquire := c.fobj(rule, rp+".(*zoneInflightLimiter).acquire")
